@@ -3,6 +3,7 @@
   one canonical answer line per operation.  No Mathlib import (links as a lean_exe).
 -/
 import TrompModel.Model.World
+import TrompModel.Model.Nested
 import Driver.Fmt
 import Driver.RangeDrv
 import Driver.MatcherDrv
@@ -45,11 +46,21 @@ def parseCond (s : String) : Option (Args → Bool) :=
   | _ => none
 
 def parseFx (s : String) : Option (Args → Option Exc) :=
-  match s with
-  | "log" => some (fun _ => none)
-  | "std" => some (fun _ => some .std)
-  | "other" => some (fun _ => some .other)
+  match s.splitOn ":" with
+  | ["log"] => some (fun _ => none)
+  | ["std"] => some (fun _ => some .std)
+  | ["other"] => some (fun _ => some .other)
+  | "call" :: _ => some (fun _ => none)        -- re-entrant side effect: the nested call is registered separately
   | _ => none
+
+/-- `call:o:f:a[:b]` — the nested call of a re-entrant side effect. -/
+def parseNest (s : String) : Option (Option (Nat × Nat × Args)) :=
+  match s.splitOn ":" with
+  | "call" :: o :: f :: args => do
+    let o ← s!"{o}".toNat?; let f ← s!"{f}".toNat?
+    let a ← args.mapM (fun t => t.toInt?)
+    some (some (o, f, a))
+  | _ => some none
 
 def parseRet (s : String) : Option (Option (Args → Outcome)) :=
   match s.splitOn ":" with
@@ -64,6 +75,15 @@ def parseRet (s : String) : Option (Option (Args → Outcome)) :=
 def sect (toks : List String) (tag : String) : List String :=
   let rest := toks.dropWhile (· != tag)
   (rest.drop 1).takeWhile (fun t => !(["P", "W", "X", "R", "T", "S", "O"].contains t))
+
+/-- the nested calls of an `expect` line: (expectation, effect index, callee). -/
+def parseNests (toks : List String) : List (Nat × Nat × (Nat × Nat × Args)) :=
+  match toks with
+  | e :: _ :: _ :: rest =>
+    match toNat? e, (sect rest "X").mapM parseNest with
+    | some e, some ns => (ns.zipIdx).filterMap (fun (n, i) => n.map (fun c => (e, i, c)))
+    | _, _ => []
+  | _ => []
 
 def parseExpect (toks : List String) : Option Op :=
   match toks with
@@ -106,27 +126,35 @@ def parseOp (line : String) : Option Op :=
   | ["releasemon", m] => do some (.releasemon (← toNat? m))
   | ["tracer", t] => do some (.tracer (← toNat? t))
   | ["killtracer", t] => do some (.killtracer (← toNat? t))
-  | ["setreporter", r] => do some (.setreporter (← toNat? r))
+  | ["setreporter", r] => do some (.setreporter (← toNat? r) none)
+  | ["setreporter", r, k] => do some (.setreporter (← toNat? r) (some (← toNat? k)))
   | _ => none
 
-partial def worldLoop (h : IO.FS.Stream) (out : IO.FS.Stream) (w : World) : IO Unit := do
+def nestOf (l : List (Nat × Nat × (Nat × Nat × Args))) : World.NestMap :=
+  fun e i => (l.find? (fun x => x.1 == e && x.2.1 == i)).map (·.2.2)
+
+partial def worldLoop (h : IO.FS.Stream) (out : IO.FS.Stream) (w : World) (nests : List (Nat × Nat × (Nat × Nat × Args))) : IO Unit := do
   let line ← h.getLine
   if line.isEmpty then return ()
   let t := line.trimAscii.toString
   if t == "reset" then
     out.putStrLn "reset"
-    worldLoop h out {}
+    worldLoop h out {} []
   else if t.startsWith "#" || t.isEmpty then
-    worldLoop h out w
+    worldLoop h out w nests
   else
     match parseOp t with
     | none =>
       out.putStrLn "parse-error"
-      worldLoop h out w
+      worldLoop h out w nests
     | some op =>
-      let (w', evs) := w.step op
+      let toks := (t.splitOn " ").filter (· != "")
+      let nests' := if toks.head? == some "expect" then parseNests (toks.drop 1) ++ nests else nests
+      let (w', evs) := match op with
+        | .call o f a => if nests'.isEmpty then w.step op else World.callN (nestOf nests') 8 w o f a
+        | _ => w.step op
       out.putStrLn (fmtEvs evs)
-      worldLoop h out w'
+      worldLoop h out w' nests'
 
 end Driver
 
@@ -134,7 +162,7 @@ def main (args : List String) : IO UInt32 := do
   let stdin ← IO.getStdin
   let stdout ← IO.getStdout
   match args with
-  | ["world"] => Driver.worldLoop stdin stdout {}; return 0
+  | ["world"] => Driver.worldLoop stdin stdout {} []; return 0
   | ["range"] => Driver.rangeLoop stdin stdout; return 0
   | ["matcher"] => Driver.matcherLoop stdin stdout; return 0
   | ["print"] => Driver.printLoop stdin stdout; return 0
